@@ -120,6 +120,45 @@ def stored_as_given(ctx: Ctx) -> None:
             ctx.site(f.where, f"{q} getter returns the stored value")
             if not (len(c) == 1 and c[0][0] == "ret" and c[0][1][0] == "a" and c[0][1][1] == S_):
                 ctx.report(f.where, f"getter-not-identity {q}", f"the getter of {q} does not return the stored value itself", lineno=f.node.lineno)
+    # the plain records (dataclasses: BoundingBox, RectAlloc, Shape, the nets ...) hold what they were constructed with: a hook that
+    # runs at construction or on attribute access may test the fields, not write them
+    _MUT = {"append", "extend", "pop", "clear", "update", "remove", "insert", "sort", "reverse", "setdefault", "popitem", "add", "discard",
+            "__setattr__", "__setitem__", "__delitem__", "__delattr__"}
+    n_rec = 0
+    for mi in m.modules.values():
+        if not mi.relpath.startswith("frame/"):
+            continue
+        for ci in mi.classes.values():
+            if not ci.is_dataclass:
+                continue
+            n_rec += 1
+            hooks = [h for h in ci.node.body if isinstance(h, (ast.FunctionDef, ast.AsyncFunctionDef))
+                     and h.name in ("__post_init__", "__init__", "__setattr__", "__getattribute__", "__getattr__", "__new__")]
+            ctx.site(f"{mi.relpath}::{ci.name}", "record keeps the values it is constructed with (no hook that rewrites a field)", hooks=[h.name for h in hooks])
+            for h in hooks:
+                writes = []
+                for x in ast.walk(h):
+                    tg = []
+                    if isinstance(x, ast.Assign):
+                        tg = list(x.targets)
+                    elif isinstance(x, (ast.AugAssign, ast.AnnAssign)):
+                        tg = [x.target]
+                    elif isinstance(x, ast.Delete):
+                        tg = list(x.targets)
+                    elif isinstance(x, (ast.For, ast.AsyncFor)):
+                        tg = [x.target]
+                    for t in tg:
+                        for y in ast.walk(t):
+                            if isinstance(y, (ast.Attribute, ast.Subscript)) and isinstance(y.ctx, (ast.Store, ast.Del)):
+                                writes.append(ast.unparse(y))
+                    if isinstance(x, ast.Call) and (call_name(x) in _MUT or call_name(x) == "setattr"):
+                        writes.append(ast.unparse(x)[:40])
+                if writes and h.name != "__init__":
+                    ctx.report(f"{mi.relpath}::{ci.name}.{h.name}", f"record-rewritten {ci.name}.{h.name}",
+                               f"{ci.name}.{h.name} writes {', '.join(sorted(set(writes))[:4])}: the record no longer holds the values it was given (ratios renormalised, "
+                               "zero entries dropped, corners snapped or rounded), so cells, boxes and nets built from it differ from what the caller "
+                               "passed and what other code computed from the same numbers", lineno=h.lineno)
+    ctx.require(n_rec >= 6, f"record classes of the library not found ({n_rec})")
     # nothing in the library rounds or truncates a number
     hits = []
     n_fn = 0
